@@ -25,4 +25,11 @@ var registry = map[string]reflect.Type{
 	"Rec":   reflect.TypeOf(fam.Rec{}),
 	"Big":   reflect.TypeOf(fam.Big{}),
 	"CK":    reflect.TypeOf(fam.CK{}),
+	"DOuter": reflect.TypeOf(fam.DOuter{}),
+}
+
+// generated New...WithDefaultValues constructors (they exist only for records that declare a default themselves)
+var constructors = map[string]interface{}{
+	"Dflt":   fam.NewDfltWithDefaultValues,
+	"DOuter": fam.NewDOuterWithDefaultValues,
 }
